@@ -54,6 +54,19 @@ def main(path):
             except Exception as e:  # noqa: BLE001
                 eq = "not-comparable:" + type(e).__name__
             V(what="unpickled-expression-differs-from-independent-rebuild", family=it["fam"], case=it["d"], parent_repr=it["repr"], observed=[repr(obj)[:160], repr(fresh)[:160]], difference=diff, z3=eq)
+        elif it["t"] == "replsolver":
+            out["replsolvers"] = out.get("replsolvers", 0) + 1
+            s_, exprs = obj
+            got = []
+            for e_ in exprs:
+                try:
+                    vals_ = tuple(s_.eval(e_, 2))
+                    got.append(repr(vals_) if len(vals_) < 2 else "several")
+                except claripy.errors.ClaripyError as ex_:
+                    got.append("raised:" + type(ex_).__name__)
+            out["answers"] += len(got)
+            if got != it["expect"]:
+                V(what="unpickled-replacement-solver-answers-differ-in-fresh-process", cls=it["cls"], observed=got, expected=it["expect"], exprs=[repr(e_)[:80] for e_ in exprs])
         else:
             out["solvers"] += 1
             try:
